@@ -500,10 +500,15 @@ func (radius *RADIUS) SerializeTo(b gopacket.SerializeBuffer, opts gopacket.Seri
 	pos := radiusMinimumRecordSizeInBytes
 	for _, v := range radius.Attributes {
 		if opts.FixLengths {
-			v.Length, err = attributeValueLength(v.Value)
+			n, err := attributeValueLength(v.Value)
 			if err != nil {
 				return err
 			}
+			if int(n)+radiusAttributesMinimumRecordSizeInBytes > 255 {
+				return fmt.Errorf("RADIUS attribute value length %d too long", n)
+			}
+			// The attribute length counts the Type and Length octets too.
+			v.Length = n + RADIUSAttributeLength(radiusAttributesMinimumRecordSizeInBytes)
 		}
 
 		data[pos] = byte(v.Type)
